@@ -47,6 +47,33 @@ def run_one(path, repo="/repo", keep=False):
             shutil.rmtree(tmp, ignore_errors=True)
 
 
+ALL_PROPS = "C01 C02 C05 C06 C07 C08 C09 C10 C11 C12 C13 C14 C15 C16 C17 C18 C19 C20".split()
+
+
+def run_benign(path, repo="/repo"):
+    """a behaviour-preserving edit (benign/<name>.diff): every check must stay silent on it"""
+    tmp = tempfile.mkdtemp(prefix="tvben-")
+    try:
+        subprocess.check_call(["rsync", "-a", "--exclude", "target", "--exclude", ".git", repo + "/", tmp + "/"])
+        r = subprocess.run(["patch", "-p1", "-s", "--no-backup-if-mismatch", "-i", path], cwd=tmp, stdout=subprocess.PIPE, stderr=subprocess.STDOUT, text=True)
+        if r.returncode != 0:
+            return False, "patch does not apply: " + r.stdout[-300:]
+        env = dict(os.environ, TV_REPO=tmp)
+        alarms = []
+        for prop in ALL_PROPS:
+            r = subprocess.run([sys.executable, os.path.join(HERE, "cli.py"), "check", prop], env=env, stdout=subprocess.PIPE, stderr=subprocess.STDOUT, text=True)
+            if "fact extraction failed" in r.stdout or "EXTRACT" in r.stdout:
+                return False, "edit does not compile: " + r.stdout[-400:]
+            keys = re.findall(r"rule=\S+ key=(.*)", r.stdout)
+            if r.returncode != 0 or keys:
+                alarms.append("%s: %s" % (prop, [k[:110] for k in keys[:3]]))
+        if alarms:
+            return False, "FALSE ALARM on a behaviour-preserving edit: " + "; ".join(alarms)
+        return True, "silent: all %d checks pass" % len(ALL_PROPS)
+    finally:
+        shutil.rmtree(tmp, ignore_errors=True)
+
+
 def seeded_as_patch(seed_id):
     """a temporary patch file with the selftest header built from seeded/<id>/meta.json"""
     import json
@@ -62,7 +89,11 @@ def seeded_as_patch(seed_id):
 def main(argv):
     d = os.path.join(VERIF, "selftest", "mutants")
     seeds = sorted(x for x in os.listdir(os.path.join(VERIF, "seeded")) if os.path.exists(os.path.join(VERIF, "seeded", x, "meta.json")))
-    names = argv or (sorted(f[:-6] for f in os.listdir(d) if f.endswith(".patch")) + ["seed:" + x for x in seeds])
+    bd = os.path.join(VERIF, "benign")
+    benign = sorted(f[:-5] for f in os.listdir(bd) if f.endswith(".diff")) if os.path.isdir(bd) else []
+    names = argv or (sorted(f[:-6] for f in os.listdir(d) if f.endswith(".patch")) + ["seed:" + x for x in seeds] + ["benign:" + x for x in benign])
+    if argv == ["benign"]:
+        names = ["benign:" + x for x in benign]
     jobs = int(os.environ.get("TV_SELFTEST_JOBS", "4"))
     from concurrent.futures import ThreadPoolExecutor
 
@@ -73,13 +104,15 @@ def main(argv):
                 return n, run_one(p)
             finally:
                 os.unlink(p)
+        if n.startswith("benign:"):
+            return n, run_benign(os.path.join(bd, n[7:] + ".diff"))
         return n, run_one(os.path.join(d, n + ".patch"))
     bad = 0
     with ThreadPoolExecutor(max_workers=jobs) as ex:
         for n, (ok, msg) in ex.map(one, names):
             print("%s %-40s %s" % ("PASS" if ok else "FAIL", n, msg), flush=True)
             bad += 0 if ok else 1
-    print("selftest: %d/%d caught" % (len(names) - bad, len(names)))
+    print("selftest: %d/%d as expected (mutants and seeds caught, benign edits silent)" % (len(names) - bad, len(names)))
     return 1 if bad else 0
 
 
